@@ -47,6 +47,7 @@ var scenarios = []struct {
 	{"crdt", crdtBursts},
 	{"facade", facade},
 	{"raft-restart", raftRestart},
+	{"ready-timeout", readyTimeout},
 }
 
 func init() {
@@ -880,4 +881,99 @@ func raftRestart(c *fw.Ctx, idx int) {
 	}
 	c.Count("raft-restarts", restarts)
 	c.Sample(map[string]interface{}{"scenario": "raft-restart", "entries_per_round": entries, "restarts": restarts})
+}
+
+// ---------------------------------------------------------------- ready timeout
+
+// readyTimeout: shutting a Cluster down while it is still waiting for its
+// consensus component. The consensus never becomes ready; the Cluster gives up
+// after ReadyTimeout (scaled down) and shuts itself down, while callers use
+// the facade and call Shutdown themselves. Done() must close and every
+// Shutdown call must return within the bound.
+func readyTimeout(c *fw.Ctx, idx int) {
+	ctx := context.Background()
+	r := c.Rand("ready")
+	old := ipfscluster.ReadyTimeout
+	ipfscluster.ReadyTimeout = time.Duration(r.Range(50, 400)) * time.Millisecond
+	defer func() { ipfscluster.ReadyTimeout = old }()
+	shared := sim.NewSharedState(nil)
+	callerShutdown := r.Pick("none", "before-timeout", "after-timeout")
+	n, err := sim.NewNode(ctx, sim.NodeOpts{
+		Key:         gen.Key(7),
+		NoWaitReady: true,
+		Consensus: func(h host, _ pubsubT, _ dhtT, _ ds.Datastore, _ *ipfscluster.Config) (ipfscluster.Consensus, error) {
+			shared.SetPeers([]peer.ID{h.ID()})
+			mc := sim.NewModelConsensus(h.ID(), shared)
+			mc.NeverReady()
+			return mc, nil
+		},
+	})
+	if err != nil {
+		c.Inconclusive("node: " + err.Error())
+		return
+	}
+	// the facade is in use meanwhile
+	stop := make(chan struct{})
+	var wg sync.WaitGroup
+	for g := 0; g < 3; g++ {
+		wg.Add(1)
+		go func() {
+			defer wg.Done()
+			for {
+				select {
+				case <-stop:
+					return
+				default:
+				}
+				octx, cancel := context.WithTimeout(ctx, 2*time.Second)
+				n.Cluster.Pins(octx)
+				n.Cluster.Peers(octx)
+				n.Cluster.Alerts()
+				cancel()
+				time.Sleep(5 * time.Millisecond)
+			}
+		}()
+	}
+	shutdownReturned := make(chan struct{})
+	go func() {
+		switch callerShutdown {
+		case "before-timeout":
+			time.Sleep(ipfscluster.ReadyTimeout / 3)
+		case "after-timeout":
+			time.Sleep(ipfscluster.ReadyTimeout * 2)
+		default:
+			close(shutdownReturned)
+			return
+		}
+		sctx, cancel := context.WithTimeout(ctx, 60*time.Second)
+		n.Cluster.Shutdown(sctx)
+		cancel()
+		close(shutdownReturned)
+	}()
+	ok := true
+	select {
+	case <-n.Cluster.Done():
+	case <-time.After(30 * time.Second):
+		ok = false
+		c.Violation("C18/ready-timeout/cluster-never-shuts-down/caller-shutdown="+callerShutdown, "the consensus component never became ready: 30 s after the ready time-out the Cluster has not finished shutting down (Done() not closed)", nil)
+	}
+	if ok {
+		select {
+		case <-shutdownReturned:
+		case <-time.After(30 * time.Second):
+			c.Violation("C18/ready-timeout/shutdown-call-never-returns/caller-shutdown="+callerShutdown, "a Shutdown call made around the ready time-out did not return within 30 s", nil)
+		}
+	}
+	close(stop)
+	wg.Wait()
+	c.Eval("ready-timeout/caller-shutdown=" + callerShutdown)
+	if ok {
+		n.Close()
+	} else {
+		// the Cluster is stuck in Shutdown: closing it would block this case too
+		if n.Host != nil {
+			n.Host.Close()
+		}
+	}
+	c.Sample(map[string]interface{}{"scenario": "ready-timeout", "ready_timeout": ipfscluster.ReadyTimeout.String(), "caller_shutdown": callerShutdown})
 }
